@@ -152,8 +152,8 @@ def allFrom (p : Int → Bool) : Nat → Int → Bool
   | n + 1, c => p c && allFrom p n (c + 1)
 
 /-- `D01`: the (state, operation) pairs on which the recorded diff list is proved to undo and
-    redo the operation exactly.  Outside it: `delete_sheet` of a sheet that has links (the undo does
-    not restore them — finding F01d), states
+    redo the operation exactly.  Outside it: `delete_sheet` of a sheet with local defined names (undo
+    re-creates them at the end of the name list — F01o), states
     whose stored timezone/locale/frozen counts would themselves be rejected by the setters, and —
     for the three sheet-list operations, books whose names are not valid and unique. -/
 def dom (b : Book) : Op → Bool
@@ -190,12 +190,11 @@ def dom (b : Book) : Op → Bool
   | .deleteSheet i =>
     -- the deleted sheet's name is valid and no other sheet has it (true of well-formed books)
     -- and it has no local defined names: undo re-creates those at the END of the name list
-    -- (`new_defined_name` appends), so the list order is not restored exactly;
-    -- and the sheet has no links (the undo does not restore them: finding F01d)
+    -- (`new_defined_name` appends), so the list order is not restored exactly (F01o)
     match b.sheets[i]? with
     | some sh => isValidSheetName sh.name &&
         !nameTaken env { b with sheets := b.sheets.eraseIdx i } sh.name &&
-        !(b.names.any fun d => d.sheetId == some sh.id) && sh.links.isEmpty
+        !(b.names.any fun d => d.sheetId == some sh.id)
     | none => true
   | .setColumnsWidth s c1 c2 _ =>
     match b.sheets[s]? with
@@ -210,6 +209,16 @@ def dom (b : Book) : Op → Bool
   | .setColumnsHidden _ _ _ _ => true
   | .setRowsHidden _ _ _ _ => true
   | .moveRows _ _ _ _ => true
+  | .moveColumns _ _ _ _ => true
+  | .setPlainInput s r _ _ =>
+    match b.sheets[s]? with
+    | some sh => decide (0 ≤ (sh.rowAt r).height)
+    | none => true
+  | .rangeClearContents s _ _ _ _ =>
+    -- the `SetCellLink` diffs of links inside the area are not modelled
+    match b.sheets[s]? with
+    | some sh => sh.links.isEmpty
+    | none => true
 
 /-- the three ways `move_rows_action` can end -/
 theorem moveRows_cases (b : Book) (s : Nat) (r n d : Int) :
@@ -226,6 +235,75 @@ theorem moveRows_cases (b : Book) (s : Nat) (r n d : Int) :
       · split
         · right; left; exact ⟨_, rfl⟩
         · next b' hm => right; right; exact ⟨_, _, hm, rfl⟩
+
+/-- the three ways `move_columns_action` can end -/
+theorem moveColumns_cases (b : Book) (s : Nat) (r n d : Int) :
+    moveColumns b s r n d = ⟨b, none, none⟩ ∨ (∃ e, moveColumns b s r n d = fail b e) ∨
+      (∃ b' nd, mMoveColumns b s r n nd = .ok b' ∧
+        moveColumns b s r n d = done b' [.moveColumns s r n nd]) := by
+  unfold moveColumns
+  split
+  · left; rfl
+  · split
+    · right; left; exact ⟨_, rfl⟩
+    · split
+      · right; left; exact ⟨_, rfl⟩
+      · split
+        · right; left; exact ⟨_, rfl⟩
+        · next b' hm => right; right; exact ⟨_, _, hm, rfl⟩
+
+/-- the ways `set_user_input` (plain text) can end -/
+theorem setPlainInput_cases (b : Book) (sheet : Nat) (r c : Int) (text : String) :
+    (∃ e, setPlainInput b sheet r c text = fail b e) ∨
+    (∃ s, getSheet b sheet = .ok s ∧ validRow r = true ∧ validCol c = true ∧
+      ((¬ (s.rowAt r).height < ONE_LINE_HEIGHT ∧
+        setPlainInput b sheet r c text =
+          done (setSheet b sheet { s with cellAt := upd2 s.cellAt r c (some text) })
+            [.setCellValue sheet r c (s.cellAt r c) text]) ∨
+       ((s.rowAt r).height < ONE_LINE_HEIGHT ∧
+        setPlainInput b sheet r c text =
+          done (setSheet (setSheet b sheet { s with cellAt := upd2 s.cellAt r c (some text) }) sheet
+              { ({ s with cellAt := upd2 s.cellAt r c (some text) } : Sheet) with
+                rowAt := upd s.rowAt r { s.rowAt r with height := ONE_LINE_HEIGHT } })
+            [.setCellValue sheet r c (s.cellAt r c) text,
+             .setRowHeight sheet r (s.rowAt r).height ONE_LINE_HEIGHT]))) := by
+  unfold setPlainInput
+  by_cases hc : validCol c = true
+  · by_cases hr : validRow r = true
+    · cases hs : getSheet b sheet with
+      | error e => left; exact ⟨e, by simp [hc, hr]⟩
+      | ok s =>
+        right
+        refine ⟨s, rfl, hr, hc, ?_⟩
+        have hcell : mSetCell b sheet r c (some text)
+            = .ok (setSheet b sheet { s with cellAt := upd2 s.cellAt r c (some text) }) := by
+          simp [mSetCell, hs, hr, hc]
+        by_cases hh : (s.rowAt r).height < ONE_LINE_HEIGHT
+        · right
+          refine ⟨hh, ?_⟩
+          have h20 : ¬ ONE_LINE_HEIGHT < 0 := by decide
+          simp only [hc, hr, Bool.not_true, Bool.false_eq_true, if_false, hcell, hh, if_true,
+            mSetRowHeight, getSheet_setSheet hs, h20]
+        · left
+          refine ⟨hh, ?_⟩
+          simp only [hc, hr, Bool.not_true, Bool.false_eq_true, if_false, hcell, hh]
+    · left; exact ⟨.invalidRow, by simp [hc, hr]⟩
+  · left; exact ⟨.invalidColumn, by simp [hc]⟩
+
+/-- the ways `range_clear_contents` can end -/
+theorem rangeClear_cases (b : Book) (sheet : Nat) (row column width height : Int) :
+    (∃ e, rangeClearContents b sheet row column width height = fail b e) ∨
+    (∃ s, getSheet b sheet = .ok s ∧
+      rangeClearContents b sheet row column width height =
+        done (setSheet b sheet
+          { s with cellAt := fun r c => if inArea row column width height r c then none else s.cellAt r c })
+          [.rangeClearContents sheet row column width height s.cellAt]) := by
+  unfold rangeClearContents
+  split
+  · left; exact ⟨_, rfl⟩
+  · cases hs : getSheet b sheet with
+    | error e => left; exact ⟨e, rfl⟩
+    | ok s => right; exact ⟨s, rfl, by simp [mClearArea, hs]⟩
 
 /-! ### atomicity of every operation (C04) -/
 
@@ -425,6 +503,19 @@ theorem doOp_atomic (b : Book) (o : Op) (e : Err) (h : (doOp env b o).err = some
     rcases moveRows_cases b s r n d with h1 | ⟨e', h1⟩ | ⟨b', nd, _, h1⟩ <;>
       rw [h1] at h ⊢ <;> simp_all [fail, done]
 
+  | moveColumns s r n d =>
+    simp only [doOp] at h ⊢
+    rcases moveColumns_cases b s r n d with h1 | ⟨e', h1⟩ | ⟨b', nd, _, h1⟩ <;>
+      rw [h1] at h ⊢ <;> simp_all [fail, done]
+  | setPlainInput s r c t =>
+    simp only [doOp] at h ⊢
+    rcases setPlainInput_cases b s r c t with ⟨e', h1⟩ | ⟨sh, _, _, _, ⟨_, h1⟩ | ⟨_, h1⟩⟩ <;>
+      rw [h1] at h ⊢ <;> simp_all [fail, done]
+  | rangeClearContents s r c w ht =>
+    simp only [doOp] at h ⊢
+    rcases rangeClear_cases b s r c w ht with ⟨e', h1⟩ | ⟨sh, _, h1⟩ <;>
+      rw [h1] at h ⊢ <;> simp_all [fail, done]
+
 /-! ### a successful call that records nothing changed nothing -/
 
 theorem doOp_quiet (b : Book) (o : Op) (herr : (doOp env b o).err = none)
@@ -503,6 +594,19 @@ theorem doOp_quiet (b : Book) (o : Op) (herr : (doOp env b o).err = none)
   | moveRows s r n d =>
     simp only [doOp] at herr hp ⊢
     rcases moveRows_cases b s r n d with h1 | ⟨e', h1⟩ | ⟨b', nd, _, h1⟩ <;>
+      rw [h1] at herr hp ⊢ <;> simp_all [fail, done]
+
+  | moveColumns s r n d =>
+    simp only [doOp] at herr hp ⊢
+    rcases moveColumns_cases b s r n d with h1 | ⟨e', h1⟩ | ⟨b', nd, _, h1⟩ <;>
+      rw [h1] at herr hp ⊢ <;> simp_all [fail, done]
+  | setPlainInput s r c t =>
+    simp only [doOp] at herr hp ⊢
+    rcases setPlainInput_cases b s r c t with ⟨e', h1⟩ | ⟨sh, _, _, _, ⟨_, h1⟩ | ⟨_, h1⟩⟩ <;>
+      rw [h1] at herr hp ⊢ <;> simp_all [fail, done]
+  | rangeClearContents s r c w ht =>
+    simp only [doOp] at herr hp ⊢
+    rcases rangeClear_cases b s r c w ht with ⟨e', h1⟩ | ⟨sh, _, h1⟩ <;>
       rw [h1] at herr hp ⊢ <;> simp_all [fail, done]
 
 /-! ### single-diff operations: the recorded diff links the states before and after -/
@@ -730,13 +834,13 @@ theorem rowSrc_inv (r d x : Int) : rowSrc r d (rowSrc (r + d) (-d) x) = x := by
   repeat' split
   all_goals omega
 
-theorem moveRow1_inv (f : Int → RowView) (r d : Int) :
+theorem moveRow1_inv {α : Type} (f : Int → α) (r d : Int) :
     moveRow1 (moveRow1 f r d) (r + d) (-d) = f := by
   funext x
   simp only [moveRow1, rowSrc_inv]
 
 /-- moving down: the last single move is the one of the first row -/
-theorem loop_down_last (d : Int) (hd : 0 < d) : ∀ (n : Nat) (row : Int) (f : Int → RowView),
+theorem loop_down_last {α : Type} (d : Int) (hd : 0 < d) : ∀ (n : Nat) (row : Int) (f : Int → α),
     moveRowsLoop d (n + 1) row f = moveRow1 (moveRowsLoop d n (row + 1) f) row d
   | 0, row, f => by simp [moveRowsLoop, hd]
   | n + 1, row, f => by
@@ -753,7 +857,7 @@ theorem loop_down_last (d : Int) (hd : 0 < d) : ∀ (n : Nat) (row : Int) (f : I
     rw [this]
 
 /-- moving up: the last single move is the one of the last row -/
-theorem loop_up_last (d : Int) (hd : ¬ 0 < d) : ∀ (n : Nat) (row : Int) (f : Int → RowView),
+theorem loop_up_last {α : Type} (d : Int) (hd : ¬ 0 < d) : ∀ (n : Nat) (row : Int) (f : Int → α),
     moveRowsLoop d (n + 1) row f = moveRow1 (moveRowsLoop d n row f) (row + n) d
   | 0, row, f => by simp [moveRowsLoop, hd]
   | n + 1, row, f => by
@@ -768,7 +872,7 @@ theorem loop_up_last (d : Int) (hd : ¬ 0 < d) : ∀ (n : Nat) (row : Int) (f : 
     rw [this]
 
 /-- a block moved by `d` and then, from its new place, by `-d` is back where it was -/
-theorem moveRowsLoop_inv (d : Int) (hd0 : d ≠ 0) : ∀ (n : Nat) (row : Int) (f : Int → RowView),
+theorem moveRowsLoop_inv {α : Type} (d : Int) (hd0 : d ≠ 0) : ∀ (n : Nat) (row : Int) (f : Int → α),
     moveRowsLoop (-d) n (row + d) (moveRowsLoop d n row f) = f
   | 0, _, _ => rfl
   | n + 1, row, f => by
@@ -796,8 +900,9 @@ theorem moveRowsLoop_inv (d : Int) (hd0 : d ≠ 0) : ∀ (n : Nat) (row : Int) (
       rw [this, moveRow1_inv]
       exact moveRowsLoop_inv d hd0 n row f
 
-theorem sheet_rows_roundtrip (s : Sheet) (g : Int → RowView) :
-    ({ ({ s with rowAt := g } : Sheet) with rowAt := s.rowAt } : Sheet) = s := by cases s; rfl
+theorem sheet_rows_roundtrip (s : Sheet) (g : Int → RowView) (k : Int → Int → Option String) :
+    ({ ({ s with rowAt := g, cellAt := k } : Sheet) with rowAt := s.rowAt, cellAt := s.cellAt } : Sheet) = s := by
+  cases s; rfl
 
 /-- the recorded `MoveRows` diff links the states before and after the model-level move -/
 theorem linked1_moveRows {b b' : Book} {sheet : Nat} {row count nd : Int}
@@ -837,6 +942,92 @@ theorem linked1_moveRows {b b' : Book} {sheet : Nat} {row count nd : Int}
           rw [sheet_rows_roundtrip]
           exact congrArg _ (setSheet_same hs)
 
+
+theorem sheet_cols_roundtrip (s : Sheet) (g : Int → ColView) (k : Int → Int → Option String) :
+    ({ ({ s with colAt := g, cellAt := k } : Sheet) with colAt := s.colAt, cellAt := s.cellAt } : Sheet) = s := by
+  cases s; rfl
+
+/-- the recorded `MoveColumns` diff links the states before and after the model-level move -/
+theorem linked1_moveColumns {b b' : Book} {sheet : Nat} {row count nd : Int}
+    (h : mMoveColumns b sheet row count nd = .ok b') :
+    Linked1 env (.moveColumns sheet row count nd) b b' := by
+  refine ⟨?_, h⟩
+  simp only [back1]
+  unfold mMoveColumns at h ⊢
+  by_cases h0 : count ≤ 0 ∨ nd = 0
+  · have h0' : count ≤ 0 ∨ -nd = 0 := by omega
+    simp only [h0, if_true] at h
+    injection h with h; subst h
+    simp only [h0', if_true]
+  · have h0' : ¬ (count ≤ 0 ∨ -nd = 0) := by omega
+    simp only [h0, if_false] at h
+    simp only [h0', if_false]
+    by_cases h1 : (!validCol (row + nd) || !validCol (row + count - 1 + nd)) = true
+    · simp [h1] at h
+    · simp only [h1] at h
+      by_cases h2 : (!validCol row || !validCol (row + count - 1)) = true
+      · simp [h2] at h
+      · simp only [h2] at h
+        have e1 : row + nd + -nd = row := by omega
+        have e2 : row + nd + count - 1 + -nd = row + count - 1 := by omega
+        have e3 : row + nd + count - 1 = row + count - 1 + nd := by omega
+        have e4 : row + count - 1 + nd + -nd = row + count - 1 := by omega
+        simp only [e1, e2, e3, e4, h2, h1]
+        cases hs : getSheet b sheet with
+        | error e => simp [hs] at h
+        | ok s =>
+          simp only [hs, Bool.false_eq_true, if_false] at h
+          injection h with h; subst h
+          simp only [getSheet_setSheet hs, Bool.false_eq_true, if_false]
+          have hnd : nd ≠ 0 := by omega
+          rw [setSheet_setSheet]
+          simp only [moveRowsLoop_inv nd hnd]
+          rw [sheet_cols_roundtrip]
+          exact congrArg _ (setSheet_same hs)
+
+
+/-! ### plain cells: typed input and range clear -/
+
+theorem upd2_roundtrip (f : Int → Int → Option String) (r c : Int) (v : Option String) :
+    upd2 (upd2 f r c v) r c (f r c) = f := by
+  funext x y
+  simp only [upd2]
+  by_cases h : x = r ∧ y = c
+  · rcases h with ⟨rfl, rfl⟩; simp
+  · simp [h]
+
+theorem sheet_cells_roundtrip (s : Sheet) (k : Int → Int → Option String) :
+    ({ ({ s with cellAt := k } : Sheet) with cellAt := s.cellAt } : Sheet) = s := by cases s; rfl
+
+theorem linked1_setCellValue {b : Book} {sheet : Nat} {s : Sheet} {r c : Int} {text : String}
+    (hs : getSheet b sheet = .ok s) (hr : validRow r = true) (hc : validCol c = true) :
+    Linked1 env (.setCellValue sheet r c (s.cellAt r c) text) b
+      (setSheet b sheet { s with cellAt := upd2 s.cellAt r c (some text) }) := by
+  constructor
+  · simp only [back1, mSetCell, getSheet_setSheet hs, hr, hc, Bool.not_true, Bool.false_eq_true,
+      if_false]
+    rw [setSheet_setSheet, upd2_roundtrip, sheet_cells_roundtrip]
+    exact congrArg _ (setSheet_same hs)
+  · simp only [fwd1, mSetCell, hs, hr, hc, Bool.not_true, Bool.false_eq_true, if_false]
+
+theorem restore_clear (f : Int → Int → Option String) (row column width height : Int) :
+    (fun r c => if (inArea row column width height r c && (f r c).isSome) = true then f r c
+      else (if inArea row column width height r c = true then none else f r c)) = f := by
+  funext r c
+  cases hA : inArea row column width height r c <;> cases hf : f r c <;> simp
+
+theorem linked1_rangeClear {b : Book} {sheet : Nat} {s : Sheet} {row column width height : Int}
+    (hs : getSheet b sheet = .ok s) :
+    Linked1 env (.rangeClearContents sheet row column width height s.cellAt) b
+      (setSheet b sheet
+        { s with cellAt := fun r c => if inArea row column width height r c then none else s.cellAt r c }) := by
+  constructor
+  · simp only [back1, mRestoreArea, getSheet_setSheet hs]
+    rw [setSheet_setSheet]
+    simp only [restore_clear]
+    rw [sheet_cells_roundtrip]
+    exact congrArg _ (setSheet_same hs)
+  · simp only [fwd1, mClearArea, hs]
 
 /-! ### every operation of the domain records a chain from the state before to the state after -/
 
@@ -1009,8 +1200,8 @@ theorem op_chain (b : Book) (o : Op) (ds : List Diff) (hd : dom env b o = true)
     | ok sh =>
       have hsome := getSheet_ok hs
       have hi : i < b.sheets.length := (List.getElem?_eq_some_iff.mp hsome).1
-      simp only [dom, hsome, Bool.and_eq_true, Bool.not_eq_true', List.isEmpty_iff] at hd
-      obtain ⟨⟨⟨hvalid, hfree⟩, hnoloc⟩, hnolinks⟩ := hd
+      simp only [dom, hsome, Bool.and_eq_true, Bool.not_eq_true'] at hd
+      obtain ⟨⟨hvalid, hfree⟩, hnoloc⟩ := hd
       have hno : ∀ d ∈ b.names, (d.sheetId == some sh.id) = false := by
         intro d hd
         cases hq : d.sheetId == some sh.id with
@@ -1047,8 +1238,9 @@ theorem op_chain (b : Book) (o : Op) (ds : List Diff) (hd : dom env b o = true)
             set_insertIdx _ _ _ _ hle']
           have hsh : ({ emptySheet sh.name sh.id with
               rowAt := sh.rowAt, colAt := sh.colAt, grid := sh.grid, frozenCols := sh.frozenCols,
-              frozenRows := sh.frozenRows, state := sh.state, color := sh.color } : Sheet) = sh := by
-            cases sh; simp only [emptySheet] at hnolinks ⊢; simp_all
+              frozenRows := sh.frozenRows, state := sh.state, color := sh.color,
+              links := sh.links, cellAt := sh.cellAt } : Sheet) = sh := by
+            cases sh; rfl
           rw [hsh, insertIdx_eraseIdx _ _ _ hsome]
         · simp only [fwd1, mDeleteSheet, h1, h2, if_false, hnames]
   | setColumnsWidth s c1 c2 w =>
@@ -1132,6 +1324,40 @@ theorem op_chain (b : Book) (o : Op) (ds : List Diff) (hd : dom env b o = true)
       simp only [done, Option.some.injEq] at hp ⊢
       subst hp
       exact Chain.single env (linked1_moveRows env hm)
+
+  | moveColumns s r n d =>
+    simp only [doOp] at herr hp ⊢
+    rcases moveColumns_cases b s r n d with h1 | ⟨e', h1⟩ | ⟨b', nd, hm, h1⟩
+    · rw [h1] at hp; simp at hp
+    · rw [h1] at herr; simp [fail] at herr
+    · rw [h1] at hp ⊢
+      simp only [done, Option.some.injEq] at hp ⊢
+      subst hp
+      exact Chain.single env (linked1_moveColumns env hm)
+  | setPlainInput s r c t =>
+    simp only [doOp] at herr hp ⊢
+    rcases setPlainInput_cases b s r c t with ⟨e', h1⟩ | ⟨sh, hsh, hr, hc, ⟨_, h1⟩ | ⟨hlt, h1⟩⟩
+    · rw [h1] at herr; simp [fail] at herr
+    · rw [h1] at hp ⊢
+      simp only [done, Option.some.injEq] at hp ⊢
+      subst hp
+      exact Chain.single env (linked1_setCellValue env hsh hr hc)
+    · rw [h1] at hp ⊢
+      simp only [done, Option.some.injEq] at hp ⊢
+      subst hp
+      simp only [dom, dom_sheet hsh, decide_eq_true_eq] at hd
+      have h20 : ¬ ONE_LINE_HEIGHT < 0 := by decide
+      have hs1 := getSheet_setSheet (t := ({ sh with cellAt := upd2 sh.cellAt r c (some t) } : Sheet)) hsh
+      exact Chain.snoc (Chain.single env (linked1_setCellValue env hsh hr hc))
+        (linked1_setRowHeight env hs1 hr h20 (by show ¬ (sh.rowAt r).height < 0; omega))
+  | rangeClearContents s r c w ht =>
+    simp only [doOp] at herr hp ⊢
+    rcases rangeClear_cases b s r c w ht with ⟨e', h1⟩ | ⟨sh, hsh, h1⟩
+    · rw [h1] at herr; simp [fail] at herr
+    · rw [h1] at hp ⊢
+      simp only [done, Option.some.injEq] at hp ⊢
+      subst hp
+      exact Chain.single env (linked1_rangeClear env hsh)
 
 /-- the concrete model satisfies the laws of the generic machine on `dom` (`obs` = identity) -/
 theorem laws : Laws (sys env) (fun w => w) (fun b o => dom env b o = true) where
